@@ -25,8 +25,32 @@ def configs():
 REVERSED_BUILDER = ['method', 'transpose', 'target', 'prio']
 
 
-def scenarios(flavour, n, max_edges, methods, only=None, order=None):
-    for seq in canon_sequences(n, max_edges):
+def tie_shapes():
+    """hub 0 with in-edges from 1, 2, 3 (one expansion discovers three nodes), and two of those three have an in-edge of
+    their own, so that the order in which tied nodes leave the heap shows in the closure calls"""
+    out = []
+    for p1, p2 in ((1, 2), (1, 3), (2, 3)):
+        for s1 in range(4):
+            for s2 in range(4):
+                if s1 != p1 and s2 != p2:
+                    out.append([(1, 0), (2, 0), (3, 0), (s1, p1), (s2, p2)])
+    return out
+
+
+def fan_shapes():
+    from collections import Counter
+    from nodeops import simple_sequences
+    out = []
+    for q in simple_sequences(4, 4):
+        ind = Counter(v for u, v in q if u != v)
+        outd = Counter(u for u, v in q if u != v)
+        if any(c >= 3 for c in ind.values()) or any(c >= 3 for c in outd.values()):
+            out.append(q)
+    return out
+
+
+def scenarios(flavour, n, max_edges, methods, only=None, order=None, shapes=None):
+    for seq in (shapes if shapes is not None else canon_sequences(n, max_edges)):
         for cfg in configs():
             if only and not only(cfg):
                 continue
@@ -118,6 +142,10 @@ def run(prop, tier, seed):
         # the builder calls in reverse order (closure, transpose, target, priority) must configure the same search
         items += list(scenarios(fl, 3, 2, ('none', 'foreach'), only=lambda c: c[0] == 'search', order=REVERSED_BUILDER))
         items += list(scenarios(fl, 3, 2, ('foreach', 'filter'), only=lambda c: c[0] == 'order', order=REVERSED_BUILDER))
+        # a frontier of three nodes discovered from one expansion (ties among them): 4 nodes, a node with in- or out-degree 3
+        items += list(scenarios(fl, 4, 4, ('none', 'foreach'), only=lambda c: c[1] == 'pfs', shapes=fan_shapes()))
+        items += [it for it in scenarios(fl, 4, 5, ('foreach',), only=lambda c: c[1] == 'pfs' and c[3] in ('path', 'cycle'), shapes=tie_shapes())
+                  if it[1]['steps'][-2][1]['root'] == 0 and it[1]['steps'][-2][1].get('target') in (None, 1)]
         # priority-first runs only differ from each other once two frontier nodes both lead on: 4 edges, symbolic node values
         items += [it for it in scenarios(fl, 3, m_e + 1, ('none',), only=lambda c: c[1] == 'pfs') if len(it[1]['meta']['seq']) == m_e + 1
                   and (tier != 'quick' or len(set(map(tuple, it[1]['meta']['seq']))) == m_e + 1)]      # quick: no parallel edges in this family
@@ -126,7 +154,7 @@ def run(prop, tier, seed):
     kr = kani_engine.KaniRun('edge_reverse_and_order')       # engine B: Edge::reverse on the compiled code
     return scenario_check(
         prop, tier, seed, items, evaluate, sig_of,
-        bounds={'nodes': 3, 'max_edges_filter': m_f, 'max_edges_for_each': m_e, 'configurations': len(configs()), 'builder_order': 'priority-target-transpose-closure, and the reverse on <=2-edge graphs', 'max_edges_pfs_plain': m_e + 1,
+        bounds={'nodes': 3, 'max_edges_filter': m_f, 'max_edges_for_each': m_e, 'configurations': len(configs()), 'fan_family': 'priority-first configurations on 4-node simple graphs with a node of in- or out-degree 3 (<=4 edges)', 'builder_order': 'priority-target-transpose-closure, and the reverse on <=2-edge graphs', 'max_edges_pfs_plain': m_e + 1,
                 'symbolic': 'edge values, node values (pfs), filter F shared by both runs',
                 'outside': 'larger graphs; the 14 nominal configurations the API does not offer'},
         assumptions=['std models of engine A', 'the in-list of a node in G lists its edges in the order the out-list of the same node lists them in G^R (follows from C01/C03)',
